@@ -59,6 +59,8 @@ pub(crate) fn schema_definition(p: &mut Parser) {
         }
 
         p.expect(T!['}'], S!['}']);
+    } else {
+        p.err("expected {");
     }
 }
 
@@ -82,10 +84,15 @@ pub(crate) fn schema_extension(p: &mut Parser) {
     if let Some(T!['{']) = p.peek() {
         p.bump(S!['{']);
 
+        let mut has_root_operation_types = false;
         p.peek_while_kind(TokenKind::Name, |p| {
             meets_requirements = true;
+            has_root_operation_types = true;
             root_operation_type_definition(p);
         });
+        if !has_root_operation_types {
+            p.err("expected Root Operation Type Definition");
+        }
 
         p.expect(T!['}'], S!['}']);
     }
